@@ -189,7 +189,7 @@ def run(ctx):
     cases = []
     cid = 0
     shapes = forest_shapes(4)
-    reps = 1 if quick else 6
+    reps = 1 if quick else 20
     for _ in range(reps):
         for parent in shapes:
             for G in (2, 3, 4, 5):
@@ -199,7 +199,7 @@ def run(ctx):
                 cases.append({"id": cid, "mode": "brute", "parent": parent, "G": G, "D": 1 + cid % 2,
                               "kind": ["moderate", "smooth", "flat", "binom"][cid % 4], "shuffle": bool(cid % 3 == 0)})
                 cid += 1
-    n_int = 300 if quick else 6000
+    n_int = 300 if quick else 30000
     for i in range(n_int):
         n = int(rng.integers(1, 13))
         f = gen.random_forest(rng, n, max_children=8, shape=[None, "star", "bushy", "chain", None][i % 5],
@@ -208,7 +208,7 @@ def run(ctx):
                       "D": 1 + i % 4, "kind": ["flat", "moderate", "smooth", "peaked", "binom", "emission"][i % 6],
                       "shuffle": bool(i % 2), "warm": bool(i % 3 == 0)})
         cid += 1
-    n_big = 12 if quick else 200
+    n_big = 12 if quick else 600
     for i in range(n_big):
         n = int(rng.integers(2, 7))
         f = gen.random_forest(rng, n, max_children=4, shape=[None, "star", "bushy"][i % 3], n_tops=[None, 3][i % 2])
